@@ -401,9 +401,18 @@ def rule_r4(repo):
 
     class CmdInterp(Interp):
         def on_call(self, text, callee, args, kwargs, node, frame):
+            # (a converter is recognised by what the call resolves to, so that a table of formats works like an if / else ladder)
+            from sa.patheval import FuncRef as _FR, UnknownMethod as _UM, ModRef as _MR
+            conv = None
             if text in ('nested_json_to_flat_json', 'nested_text_to_flat_json', 'flat_text_to_flat_json', 'json.loads'):
-                self.event('convert', text)
-                return Sym('DATA:' + text)
+                conv = text
+            elif isinstance(callee, _FR) and callee.fi.module.name == 'utils' and callee.fi.name in ('nested_json_to_flat_json', 'nested_text_to_flat_json', 'flat_text_to_flat_json'):
+                conv = callee.fi.name
+            elif isinstance(callee, _UM) and isinstance(callee.recv, _MR) and callee.recv.name == 'json' and callee.name == 'loads':
+                conv = 'json.loads'
+            if conv is not None:
+                self.event('convert', conv)
+                return Sym('DATA:' + conv)
             if text == 'Encoder':
                 it = self
 
